@@ -1,0 +1,19 @@
+//go:build verif
+
+package commitgraph
+
+// Contracts for the gvc verifier (/verif). Comment-only; never compiled into
+// a normal build.
+
+// encodeCommitData (coarse, bit-exact arithmetic). git commit-graph.c stores
+// generation << 2 | (date >> 32 & 3) and the low 32 date bits, i.e. the
+// generation number in the top 30 bits of the 64-bit word and a 34-bit date:
+// the word written must carry the commit's generation in bits 34..63 whatever
+// the committer time is (property C51: generation numbers read back equal).
+//gvc:func (*Encoder).encodeCommitData
+//gvc:  props C51
+//gvc:  theory bv
+//gvc:  opt coarse
+//gvc:  opt frame args
+//gvc:  sink WriteUint64 requires generation: commitData.Generation <= 0x3fffffff ==> unixTime >> 34 == commitData.Generation
+//gvc:end
